@@ -152,6 +152,13 @@ def rule_chunks(repo, rep, interp=None):
       # known one is not visible to the frame typing here and is decided by
       # R-INTERP:chunks (one-class) on layouts with unlabelled points
       rep.derived(R, 'Constraints.chunks:store', s)
+    elif target == ('arr', FULL) and is_idx(iv) and iv[1] == FULL and \
+            'class' in iv[3] and (interp or {}).get('one-class') != 'refuted':
+      # one class of the caller's array, but neither the frame typing nor
+      # the interpretation could tell that the class is a labelled one
+      rep.unknown(R, 'Constraints.chunks:store', s, 'chunk ids are written '
+                  'at ' + describe(iv) + ': that the class is a labelled one '
+                  'is not derivable')
     elif is_idx(iv):
       rep.refuted(R, 'Constraints.chunks:store', s, 'chunk ids are written '
                   'at ' + describe(iv))
